@@ -50,6 +50,7 @@ class Fam:
             for k in range(len(parts)):
                 self.internal.add("/" + "/".join(parts[:k]) if k else "")
         self.opt_present = False
+        self.vlock = False        # family 3: the validator on the payload of `mode/B` rejects while set
         self.mode = "o"           # family 3: active variant of `mode` (o = Off, c = Cal (skipped), a, b)
 
     def tree_text(self):
@@ -65,7 +66,7 @@ class Fam:
             return (f"N 0 - n:o,lut,trip,text,k,mode 6 {a0} G option 1 N 0 - n:p,q 2 {a0} L l:u8 i0 {a0} L l:u8 i0 "
                     f"{a0} A 12 " + " ".join("L l:u8 i0" for _ in range(12)) +
                     f" {a0} L l:arr3i16 A(i0,i0,i0) {a0} L l:hstr256 se {a0} L l:u8 i0 "
-                    f"{a0} N 0 x n:A,B 2 {a0} L l:u8 i0 {a0} L l:u8 i0")
+                    f"{a0} N 0 x n:A,B 2 {a0} L l:u8 i0 a:2:-:-:-:-:0:0:1 L l:u8 i0")
         return "N 0 - n:l0,l1,l2,l3,l4,l5 6 " + " ".join(f"{a0} L l:u8 i0" for _ in range(6))
 
     def norm(self, path):
@@ -189,6 +190,8 @@ class Fam:
         self.val[p] = v
         if p == "/v" and v > 100:
             return ("err", "invalid", 1, "too big")
+        if p == "/mode/B" and self.vlock:
+            return ("err", "invalid", 2, "b locked")
         if not clean:
             return ("final",)
         return ("ok",)
@@ -263,6 +266,18 @@ def parse_pkt(tok):
 
 # ------------------------------------------------------------------------------- model observations
 
+def gate_for(fam, path, payload, vlock):
+    """how the user callbacks behave during one write: the validator that would reject it (at most one lies on a path)"""
+    keys = path.split("/")[1:]
+    if fam == 1 and keys == ["v"]:
+        m = re.match(r"\s*(\d+)", payload)
+        if m and 100 < int(m.group(1)) <= 255:
+            return "1=vf!" + cp("too big")
+    if fam == 3 and keys[:2] == ["mode", "B"] and vlock:
+        return "2=vf!" + cp("b locked")
+    return "-"
+
+
 def poll_tok(req, canpub, fits, gate):
     if req is None:
         return "i"
@@ -277,6 +292,7 @@ def model_items(events, recs, fam):
     pending_reqs = []     # requests sent to the client, not yet handed to the closure
     ri = 0
     lost_window = False
+    vlock = False
 
     def next_rec(kind):
         nonlocal ri
@@ -316,10 +332,8 @@ def model_items(events, recs, fam):
                     gate = "-"
                     fits = True
                     if req is not None:
-                        if req["payload"] and req["topic"] == PREFIX + "/settings/v" and fam == 1:
-                            m = re.match(r"\s*(\d+)", req["payload"])
-                            if m and 100 < int(m.group(1)) <= 255:
-                                gate = "1=vf!" + cp("too big")
+                        if req["payload"] and req["topic"].startswith(PREFIX + "/settings"):
+                            gate = gate_for(fam, req["topic"][len(PREFIX + "/settings"):], req["payload"], vlock)
                         # a Get whose value does not fit is answered by an Error response
                         if not req["payload"] and any(p["code"] == "Error" and (p["payload"] or "").startswith("(De)serialization")
                                                        for p in pubs):
@@ -347,11 +361,7 @@ def model_items(events, recs, fam):
             exp.append({"k": "R"})
         elif ev.startswith("set:"):
             _, p, j = ev.split(":")
-            gate = "-"
-            if fam == 1 and uncp(p).split("/")[1:] == ["v"]:
-                m = re.match(r"\s*(\d+)", uncp(j))
-                if m and 100 < int(m.group(1)) <= 255:
-                    gate = "1=vf!" + cp("too big")
+            gate = gate_for(fam, uncp(p), uncp(j), vlock)
             items.append(f"S:{p}:{j}:{gate}")
             exp.append({"k": "S", "ok": r["tok"] == "S:ok"})
         elif ev.startswith("optsome"):
@@ -363,6 +373,8 @@ def model_items(events, recs, fam):
         elif ev.startswith("mode") and fam == 3:
             items.append(f"M:{ev[4]}:{ev[5:] or 0}")
             exp.append({"k": "O"})
+        elif ev in ("vlock0", "vlock1"):
+            vlock = ev == "vlock1"     # the model learns the validator's behaviour through the per-call gate
         elif ev == "drop":
             pending_reqs.clear()
             lost_window = True
